@@ -216,10 +216,16 @@ def session_minutes(spec):
     cur = {}  # sym -> (candle, events)
     ends = [e for e in r['trace'] if e['ev'] == 'minute-end']
     last_minute_end = ends[-1] if ends else None
+    from vf.props.c02 import normalise
+    norm = {s_: normalise(rows) for s_, rows in spec['candles'].items()}
+    seen_minutes = {}
     for e in r['trace']:
         sym = e.get('sym')
         if e['ev'] == 'minute':
-            cur[sym] = (e['candle'], [], dict(active.get(sym, {})))
+            i = seen_minutes.get(sym, 0)
+            seen_minutes[sym] = i + 1
+            o_, c_, h_, l_ = norm[sym][i]  # the path is judged on the INPUT minute (open := previous close, range widened to it)
+            cur[sym] = ([e['candle'][0], o_, c_, h_, l_, e['candle'][5]], [], dict(active.get(sym, {})))
         elif e['ev'] == 'minute-end' and sym in cur:
             candle, evs, before = cur.pop(sym)
             v, st = judge_minute(candle, evs, before)
